@@ -12,7 +12,7 @@
    the stronger secret only. *)
 From Coq Require Import String List NArith PeanoNat Bool.
 From Verif Require Import Lib.Hex Lib.Bytes Lib.Decimal Gen.Hashutil Gen.Uri Model.UriBase32 Model.Uri Model.UriNodes
-  Proofs.UriParse Proofs.UriAtten Proofs.UriPins.
+  Proofs.UriParse Proofs.UriAtten Proofs.UriDirStore Proofs.UriPins.
 Import ListNotations.
 Local Open Scope N_scope.
 
@@ -150,6 +150,54 @@ Theorem nodemaker_pins :
 Proof. exact nodemaker_pins_ok. Qed.
 Print Assumptions nodemaker_pins.
 
+(* Children stored in a directory and read back (dirnode._pack_normalized_children with
+   strip_prefix_for_ro, then DirectoryNode._unpack_contents -> create_from_cap -> UnknownNode):
+   `dir_store_read m di view` in Model/UriNodes.v, di = the directory is deep-immutable,
+   view = read through a writeable view (the write slot is readable).
+
+   An unknown child keeps an allegation at least as strong as the one its read cap carried
+   (imm. stays imm., ro. stays ro. or becomes imm.), always has one, has imm. in an immutable
+   directory, and has a write cap only if it had that one and the view is writeable.  (Read
+   caps ending in a space are excluded: the unpacker strips trailing spaces, C19; a read cap
+   that is the bare prefix stores as the empty string, i.e. as no cap.) *)
+Theorem allegation_survives_directory :
+  forall n di view n' r,
+  un_ro n = Some r -> last r 0 <> 32 -> strip_prefix_for_ro r di <> [] ->
+  dir_store_read (MUnknown (UOk n)) di view = Some (MUnknown (UOk n')) ->
+  (forall r', un_ro n' = Some r' -> (strength r <= strength r')%nat /\ (1 <= strength r')%nat /\ (di = true -> strength r' = 2%nat))
+  /\ (forall w', un_rw n' = Some w' -> exists w, un_rw n = Some w /\ w' = rstrip_spaces w /\ view = true).
+Proof. exact allegation_survives_directory_ok. Qed.
+Print Assumptions allegation_survives_directory.
+
+(* the prefix-stripping rule itself: what is stored, by strength of the allegation *)
+Theorem strip_prefix_rule :
+  forall r di,
+  match strength r with
+  | 2%nat => if di then imm_prefix ++ strip_prefix_for_ro r di = r else strip_prefix_for_ro r di = r
+  | 1%nat => ro_prefix ++ strip_prefix_for_ro r di = r
+  | _ => strip_prefix_for_ro r di = r
+  end.
+Proof. exact strip_prefix_for_ro_spec. Qed.
+Print Assumptions strip_prefix_rule.
+
+(* ... and when the stored read cap parses as a KNOWN cap on the way back, that cap is not
+   writeable if the original was alleged read-only or immutable, not mutable if alleged
+   immutable -- provided the original was acceptable when attached *)
+Theorem stored_readcap_never_upgrades :
+  forall r di c0 c,
+  from_string di r = Ok c0 -> (known c0 = true \/ exists s, c0 = CUnknown s ENone) ->
+  from_string di (strip_prefix_for_ro r di) = Ok c ->
+  ((1 <= strength r)%nat -> is_readonly c <> Some false)
+  /\ (strength r = 2%nat -> is_mutable c <> Some true)
+  /\ (di = true -> is_readonly c <> Some false /\ is_mutable c <> Some true).
+Proof. exact stored_readcap_never_upgrades_ok. Qed.
+Print Assumptions stored_readcap_never_upgrades.
+
+Theorem dirnode_pins :
+  dirnode_code_pins = expected_dirnode_code_pins.
+Proof. exact dirnode_pins_ok. Qed.
+Print Assumptions dirnode_pins.
+
 (* ---- satisfiable hypotheses, concrete chains (executable SHA-256) ---- *)
 Definition ex_wk : bytes := repeat 1 16.
 Definition ex_fp : bytes := repeat 2 32.
@@ -189,4 +237,16 @@ Example ex_cache_nonvacuous :
   let '(m2, cache2) := create_from_cap cache1 (Some s) None true in
   m1 = MNode (CFile (SSK ex_wk ex_fp)) /\ length cache1 = 1%nat
   /\ m2 = MUnknown (UOk {| un_error := EMustNotBeUnknownRW; un_rw := None; un_ro := None |}).
+Proof. vm_compute. repeat split. Qed.
+
+Example ex_directory_nonvacuous :
+  let imm_future := {| un_error := ENone; un_rw := None; un_ro := Some (bytes_of_string "imm.x-some-future-cap:ab") |} in
+  let ro_future := {| un_error := ENone; un_rw := Some (bytes_of_string "x-future-rw:1"); un_ro := Some (bytes_of_string "ro.x-some-future-cap:ab") |} in
+  dir_store_read (MUnknown (UOk imm_future)) false true = Some (MUnknown (UOk imm_future))
+  /\ dir_store_read (MUnknown (UOk imm_future)) true false = Some (MUnknown (UOk imm_future))
+  /\ dir_store_read (MUnknown (UOk ro_future)) false true = Some (MUnknown (UOk ro_future))
+  /\ dir_store_read (MUnknown (UOk ro_future)) false false
+     = Some (MUnknown (UOk {| un_error := ENone; un_rw := None; un_ro := Some (bytes_of_string "ro.x-some-future-cap:ab") |}))
+  /\ strip_prefix_for_ro (bytes_of_string "imm.x-some-future-cap:ab") false = bytes_of_string "imm.x-some-future-cap:ab"
+  /\ strip_prefix_for_ro (bytes_of_string "imm.x-some-future-cap:ab") true = bytes_of_string "x-some-future-cap:ab".
 Proof. vm_compute. repeat split. Qed.
